@@ -85,7 +85,7 @@ CHECKS = {
                 technique="TLC bounded model checking of FixedCompose (PropKeySet) + replay of every TLC behaviour through the real engine",
                 text="TLC enumerates all key/backspace histories to depth 3 (quick) / 4 (thorough) over a class alphabet x 16 helper settings, checks the "
                      "transcript against the normative priority chain, and every emitted history is replayed in the real engine with the pre-edit text "
-                     "compared after each event; a second instance goes deeper over a small alphabet, a third sweeps EVERY member of every class the rules name (107 values incl. all 30 punctuation marks) to depth 2/3, and recorded random fixed-layout sessions over all key codes are validated by Trace_Session (focus C12); bounded-exhaustive over the stated alphabets, not a proof",
+                     "compared after each event; a second instance goes deeper over a small alphabet, a third sweeps EVERY member of every class the rules name (107 values incl. all 30 punctuation marks) as pairs (thorough: followed by one chain-level value), and recorded random fixed-layout sessions over all key codes are validated by Trace_Session (focus C12); bounded-exhaustive over the stated alphabets, not a proof",
                 note="class representatives; edge characters on which riti's tables and the Unicode chart differ are non-normative; TLC, harness executor, rustc trusted"),
     "C13": dict(category=MC, design_ref="DESIGN.md 5 C13",
                 technique="TLC bounded model checking of ImplReph against PropRephSet (syllable grammar) + replay of every reph-ending history through the real engine",
